@@ -63,7 +63,9 @@ def gen_plan(seed, tier):
     "recv_mode": r.pick(["all", "choose", "choose", "dribble"]),
   }
   n = r.randint(4, 40 if tier == "thorough" else 24)
-  steps = [{"op": "hello", "flush": r.chance(0.5)}]
+  # (a hello may carry a body, which the receiver has to ignore)
+  steps = [{"op": "hello", "flush": r.chance(0.5),
+            "hbody": r.pick([0, 0, 0, 1, 8, 40])}]
   kinds = [(4, "echo"), (3, "features"), (3, "get_config"), (2, "set_config"),
            (4, "barrier"), (8, "stats"), (2, "queue_config"), (2, "vendor"),
            (4, "flow_mod"), (2, "packet_out"), (3, "port_mod"), (1, "hello"),
@@ -74,6 +76,8 @@ def gen_plan(seed, tier):
     st = {"op": k, "xid": _xid(r), "flush": r.chance(0.45)}
     if k == "echo":
       st["body"] = r.randbytes(r.pick([0, 0, 1, 7, 64, 1400])).hex()
+    elif k == "hello":
+      st["hbody"] = r.pick([0, 0, 1, 8, 40])
     elif k == "set_config":
       st["flags"] = r.pick([0, 1, 2])
       st["msl"] = r.pick([0, 14, 128, 0xffff])
@@ -248,7 +252,10 @@ def _drive(sim, world, plan, known, hit_known):
     xid = st.get("xid", 0)
     cur["what"] = op if op != "stats" else "stats_" + st["stype"]
     if op == "hello":
-      world.send(W.enc_hello(xid))
+      hb = st.get("hbody")
+      if hb:
+        sim.probes["hello_with_body"] += 1
+      world.send(W.enc_hello(xid, b"\x5a" * (hb or 0)))
       if not model["hello_seen"]:
         model["hello_seen"] = True
         E("hello", xid, anyxid=True)
